@@ -14,6 +14,12 @@ L3 : written from the property text with numpy only (no Lean, no dadi internals)
      sum of BetaBinomConvolution); inbreeding path = trapezoid of an independently convolved beta-binomial; F -> 0 limit
      (error proportional to F); mixed zero / non-zero F; grids over-shooting [0,1] by 1e-16; bookkeeping (mask_corners,
      pop_ids, extrap_x).
+     Round 4: (i) the marginalisation clause for *sets* of populations listed in every order (`Spectrum.marginalize(over)`,
+     1..d-1 of d = 2..5 populations, all permutations; values, shape, labels, extrap_x, mask; K against the model's
+     `marginalize` whose iteration order is translated from the source); (ii) call-history independence: sessions of calls
+     sharing (sample sizes, grid objects, F, ploidy) that run through the options (ascertained / plain / F = 0 / direct /
+     semi-analytic / admix / look-alike grid / other F / other ploidy / repeats), every call checked on its own; the failing
+     input carries the preceding calls (`history`) and the replay re-executes them first.
 """
 import math, itertools, warnings, json
 import numpy as np
@@ -351,7 +357,9 @@ def gen_props(rng, d, identity=None):
     return rows
 
 def small(c):
-    out = dict(c)
+    out = {k: v for k, v in c.items() if not k.startswith('_')}
+    if out.get('history'):
+        out['history'] = [small(h) for h in out['history']]
     for k in ('phi',):
         if k in out: out[k] = np.asarray(out[k], dtype=float)
     out['grids'] = [[float(v) for v in g] for g in c['grids']]
@@ -365,6 +373,9 @@ def from_json(inp):
     if 'psi' in c: c['psi'] = arr(c['psi'])
     if 'grids' in c: c['grids'] = [np.array(g, dtype=float) for g in c['grids']]
     if c.get('after_grids'): c['after_grids'] = [[float(v) for v in g] for g in c['after_grids']]
+    if c.get('history'): c['history'] = [from_json(h) for h in c['history']]
+    for k in ('over',):
+        if c.get(k) is not None: c[k] = [int(v) for v in c[k]]
     return c
 
 # =========================================================================== calling the implementation
@@ -398,7 +409,8 @@ def call_from_phi(dadi, c, phi=None, record=False, mask_corners=None):
     kw = dict(mask_corners=c.get('mask_corners', False) if mask_corners is None else mask_corners, pop_ids=c.get('pop_ids'),
               admix_props=props, het_ascertained=c.get('het'), force_direct=bool(c.get('force')))
     ph = np.array(c['phi'] if phi is None else phi, dtype=float)
-    grids = [np.array(g, dtype=float) for g in c['grids']]
+    # `_live_grids`: the caller's own grid objects, passed to every call of a session as a user script does
+    grids = c['_live_grids'] if c.get('_live_grids') is not None else [np.array(g, dtype=float) for g in c['grids']]
     fn = None
     try:
         with np.errstate(all='ignore'):
@@ -500,6 +512,7 @@ def check_from_phi(chk, ctx, c, do_model=True):
                           dict(fn=m['fn'], extrap_x=m['extrap_x'], data=m['data']), err)
     chk.sample(dict(op='from_phi', d=d, ns=ns, pts=[len(g) for g in grids], path=c['path'], het=c.get('het'), force=c.get('force'),
                     overshoot=c.get('overshoot'), dispatched=res.get('fn'), error=res['err']))
+    return res
 
 def l3_values(chk, ctx, c, data, inp, tag):
     """the property statement on one result"""
@@ -913,7 +926,8 @@ def call_inb(dadi, c, Fs=None):
     S = dadi.Spectrum
     try:
         with np.errstate(all='ignore'):
-            fs = S.from_phi_inbreeding(np.array(c['phi'], dtype=float), list(c['ns']), [np.array(g, dtype=float) for g in c['grids']],
+            grids = c['_live_grids'] if c.get('_live_grids') is not None else [np.array(g, dtype=float) for g in c['grids']]
+            fs = S.from_phi_inbreeding(np.array(c['phi'], dtype=float), list(c['ns']), grids,
                                        list(c['Fs'] if Fs is None else Fs), list(c['pls']), mask_corners=c.get('mask_corners', False),
                                        het_ascertained=c.get('het'))
         return dict(fs=fs, err=None)
@@ -1012,6 +1026,7 @@ def check_inbreeding(chk, ctx, c):
     elif have_driver(ctx):
         chk.k_skipped += 1
     chk.sample(dict(op='from_phi_inbreeding', d=d, ns=ns, Fs=Fs, ploidys=pls, het=c.get('het'), mode=mode, error=res['err']), cap=10)
+    return res
 
 def l3_inbreeding_limit(chk, ctx, rng, count):
     """F -> 0: the inbreeding path approaches the direct binomial path, error proportional to F"""
@@ -1127,6 +1142,357 @@ def k_spec_vs_fast(chk, ctx, rng, count):
         if a == b and a.startswith('ok '): chk.k_ok('model:spec=fast')
         else: chk.k_bad('model:spec=fast', dict(kind='spec', d=d, which=kind), a[:80], b[:80], None)
 
+# =========================================================================== marginalising populations, listed in any order
+def marg_overs(rng, d, cap):
+    """every way of listing 1..d-1 of the d populations, in every order; above `cap` all single populations and all ordered
+    pairs plus a random subset of the longer lists"""
+    allo = [p for r in range(1, d) for p in itertools.permutations(range(d), r)]
+    if len(allo) <= cap:
+        return [list(p) for p in allo]
+    base = [p for p in allo if len(p) <= 2]
+    rest = [p for p in allo if len(p) > 2]
+    pick = rng.choice(len(rest), size=max(0, cap - len(base)), replace=False)
+    return [list(p) for p in base + [rest[int(i)] for i in sorted(pick)]]
+
+def order_class(over):
+    over = list(over)
+    if len(over) == 1: return 'single'
+    if over == sorted(over): return 'ascending'
+    if over == sorted(over, reverse=True): return 'descending'
+    return 'mixed'
+
+def distinct_sizes(rng, d, hi, mult=None):
+    """sample sizes that differ between populations as far as `hi` allows (a result for the wrong population has the wrong
+    shape or the wrong numbers); `mult`: per-population ploidy the size must be a multiple of"""
+    if mult is None:
+        pool = list(range(1, hi + 1))
+        while len(pool) < d:
+            pool = pool + pool
+        return [int(v) for v in rng.permutation(pool)[:d]]
+    out = []
+    for a in range(d):
+        ks = [k for k in range(1, max(1, hi // mult[a]) + 1)]
+        cand = [mult[a] * k for k in ks if mult[a] * k not in out] or [mult[a] * ks[0]]
+        out.append(int(cand[int(rng.integers(len(cand)))]))
+    return out
+
+def gen_marg_case(rng, tier, d, path):
+    """a sampled spectrum whose populations are all different (sample size, marginal of the density, grid on the direct /
+    inbreeding paths), labelled"""
+    q = tier == 'quick'
+    bits = int(rng.choice([12, 16]))
+    c = dict(kind='marginalize', d=d, path=path, het=None, props=None, force=(path == 'direct'), bits=bits, mask_corners=False, overshoot=None)
+    if path == 'inb':
+        pls = [int(v) for v in rng.permutation([2, 3, 4, 2, 6])[:d]]
+        c['pls'] = pls
+        c['ns'] = distinct_sizes(rng, d, {2: 8, 3: 6}[d], mult=pls)
+        Fp = [0.25, 0.5, 0.125, 0.75, 0.0625]
+        c['Fs'] = [Fp[int(i)] for i in rng.permutation(5)[:d]]
+        c['sampler'] = 'inbreeding'
+    else:
+        hi = {2: 7, 3: 5, 4: 4, 5: 3}[d] if q else {2: 12, 3: 6, 4: 4, 5: 3}[d]
+        c['ns'] = distinct_sizes(rng, d, hi)
+        c['sampler'] = 'from_phi'
+    N = int(rng.integers(3, {2: 8, 3: 6, 4: 5, 5: 4}[d] + 1))
+    g0, _ = gen_grid(rng, N, bits)
+    if path == 'analytic':
+        grids = [g0.copy() for _ in range(d)]
+    else:
+        grids = [g0.copy()] + [gen_grid(rng, int(rng.integers(3, {2: 8, 3: 6, 4: 5, 5: 4}[d] + 1)), bits)[0] for _ in range(d - 1)]
+    if rng.random() < 0.15:
+        a = int(rng.integers(d))
+        g, c['overshoot'] = overshoot(rng, grids[a])
+        if path == 'analytic':
+            grids = [g.copy() for _ in range(d)]
+        else:
+            grids[a] = g
+    c['grids'] = grids
+    c['phi'], c['phi_kind'] = gen_phi(rng, [np.clip(g, 0, 1) for g in grids], bits, kind=['random', 'spiky', 'signed', 'random'][int(rng.integers(4))])
+    if path in ('direct', 'inb') and rng.random() < 0.4:
+        c['het'] = HETKEYS[int(rng.integers(min(d, 3)))]
+        if path == 'direct': c['path'] = 'het'
+    c['pop_ids'] = ['pop%c' % 'ABCDE'[k] for k in range(d)] if rng.random() < 0.8 else None
+    c['over_form'] = ['tuple', 'list', 'array'][int(rng.integers(3))]
+    c['marg_mask'] = bool(rng.random() < 0.5)
+    return c
+
+def marg_sample(dadi, c):
+    if c['sampler'] == 'inbreeding':
+        r = call_inb(dadi, c)
+        if r['err'] is None and c.get('pop_ids') is not None:
+            r['fs'].pop_ids = list(c['pop_ids'])
+        return r
+    return call_from_phi(dadi, c, mask_corners=False)
+
+def marg_reduced_case(c, S):
+    """the same sampling call on the density with the populations in S integrated out by the trapezoid rule (with the
+    ascertainment weight x(1-x) if the ascertained population is one of them)"""
+    d = c['d']
+    keep = [k for k in range(d) if k not in S]
+    hax = HETKEYS.index(c['het']) if c.get('het') else None
+    phi = np.asarray(c['phi'], dtype=float)
+    for a in sorted(S, reverse=True):
+        g = np.asarray(c['grids'][a], dtype=float)
+        if c['path'] == 'analytic':
+            g = np.clip(g, 0, 1)
+        f = phi
+        if hax == a:
+            sh = [1] * phi.ndim; sh[a] = len(g)
+            f = phi * (g * (1 - g)).reshape(sh)
+        phi = np.trapezoid(f, g, axis=a)
+    het = HETKEYS[keep.index(hax)] if (hax is not None and hax in keep) else None
+    cm = dict(c, d=len(keep), ns=[c['ns'][k] for k in keep], grids=[c['grids'][k] for k in keep], phi=phi, pop_ids=None, het=het,
+              mask_corners=False)
+    if c['sampler'] == 'inbreeding':
+        cm['Fs'] = [c['Fs'][k] for k in keep]; cm['pls'] = [c['pls'][k] for k in keep]
+    elif c['path'] == 'het' and het is None:
+        cm['path'] = 'direct'; cm['force'] = True
+    return cm, keep
+
+def check_marginalize(chk, ctx, c, overs):
+    """`Spectrum.marginalize(over)` of the sampled spectrum against sampling the density with those populations integrated
+    out — for `over` listing the populations in any order (values, shape, labels, extrap_x, mask); K: against the model's
+    `marginalize` whose iteration order is read off the source"""
+    dadi = ctx['dadi']
+    d = c['d']; ns = list(c['ns'])
+    tag = '%dD:%s' % (d, c['path'])
+    base = marg_sample(dadi, c)
+    if base['err'] is not None or not np.all(np.isfinite(np.asarray(base['fs'].data, dtype=float))):
+        chk.fail('marginalize:%s:sampling-raises' % tag, 'sampling the %d-population spectrum raises / is non-finite (%r %s)' % (d, base['err'], base.get('msg')), dict(small(c), over=None))
+        return
+    fs = base['fs']
+    data0 = np.array(fs.data, dtype=float)
+    ids = c.get('pop_ids')
+    refs = {}
+    nk = 0
+    for over in overs:
+        over = [int(v) for v in over]
+        S = frozenset(over)
+        inp = dict(small(c), over=over)
+        oc = order_class(over)
+        chk.l3(('marginalize', d, c['path'], len(over), oc, c.get('het') is not None))
+        chk.stat('marg:order:%s' % oc); chk.stat('marg:dim:%d' % d)
+        if S not in refs:
+            cm, keep = marg_reduced_case(c, S)
+            refs[S] = (marg_sample(dadi, cm), keep)
+        rm, keep = refs[S]
+        if rm['err'] is not None:
+            chk.fail('marginalize:%s:marginal-density-raises' % tag, 'sampling the density integrated over populations %r raises %s' % (sorted(S), rm['err']), inp)
+            continue
+        B = np.asarray(rm['fs'].data, dtype=float)
+        ov = tuple(over) if c.get('over_form') == 'tuple' else (np.array(over) if c.get('over_form') == 'array' else list(over))
+        mc = bool(c.get('marg_mask'))
+        try:
+            out = fs.marginalize(ov, mask_corners=mc)
+            oerr = None
+        except Exception as e:
+            out = None; oerr = type(e).__name__
+            chk.fail('marginalize:%s:raises:%s' % (tag, oerr), 'marginalize(%r) of a %d-population spectrum raises %r (populations listed in %s order)' % (over, d, e, oc), inp)
+        if out is not None:
+            A = np.asarray(out.data, dtype=float)
+            want_shape = tuple(ns[k] + 1 for k in keep)
+            if tuple(A.shape) != want_shape:
+                chk.fail('marginalize:%s:shape' % tag, 'marginalize(%r) of a spectrum with sample sizes %r has shape %r; the populations left are %r, shape %r'
+                         % (over, ns, tuple(A.shape), keep, want_shape), inp)
+            else:
+                sc = max(float(np.max(np.abs(B))), float(np.max(np.abs(A))), 1e-300)
+                tol = 1e-9
+                if c['sampler'] == 'inbreeding':
+                    tol = 1e-8 + 4e-14 * max((1 - F) / F for F in c['Fs'] if F > 0)
+                e = float(np.max(np.abs(A - B)))
+                if not e <= tol * sc:
+                    bad = np.unravel_index(int(np.argmax(np.abs(A - B))), A.shape)
+                    chk.fail('marginalize:%s:value' % tag, 'marginalize(%r) (populations listed in %s order) of the sampled spectrum differs from sampling the density integrated over populations %r: '
+                             'entry %r is %r vs %r (max %.3g, scale %.3g)' % (over, oc, sorted(S), list(map(int, bad)), float(A[bad]), float(B[bad]), e, sc), inp)
+                want_mask = corner_mask(A.shape) if mc else np.zeros(A.shape, dtype=bool)
+                if not np.array_equal(np.ma.getmaskarray(out), want_mask):
+                    chk.fail('marginalize:mask_corners', 'marginalize(%r, mask_corners=%r): masked entries %r' % (over, mc, np.argwhere(np.ma.getmaskarray(out)).tolist()[:6]), inp)
+            want_ids = [ids[k] for k in keep] if ids is not None else None
+            got_ids = list(out.pop_ids) if out.pop_ids is not None else None
+            if got_ids != want_ids:
+                chk.fail('marginalize:%s:pop_ids' % tag, 'marginalize(%r) of populations %r is labelled %r; the populations left are %r' % (over, ids, got_ids, want_ids), inp)
+            if not (out.extrap_x == fs.extrap_x):
+                chk.fail('marginalize:extrap_x', 'marginalize(%r) has extrap_x %r, the sampled spectrum %r' % (over, out.extrap_x, fs.extrap_x), inp)
+            if getattr(out, 'folded', False):
+                chk.fail('marginalize:folded', 'marginalize(%r) of an unfolded spectrum is marked folded' % (over,), inp)
+        if not np.array_equal(np.asarray(fs.data), data0) or fs.pop_ids != ids:
+            chk.fail('marginalize:modifies-input', 'marginalize(%r) changed the spectrum it was called on' % (over,), inp)
+            fs = dadi.Spectrum(data0.copy(), mask_corners=False, pop_ids=ids); fs.extrap_x = base['fs'].extrap_x
+        # ---- K
+        if have_driver(ctx) and (data0.size <= 200 or oc in ('descending', 'mixed') or nk % 3 == 0):
+            mo = ctx['driver'].ask('marginalize %s %s' % (','.join(map(str, over)), fmt_nd(data0)))
+            op = 'marginalize:%dD' % d
+            if mo.startswith('ok ') and out is not None:
+                _, kept, nd = mo.split(' ')
+                arr, _ = parse_nd(nd)
+                mk = [] if kept == '-' else [int(v) for v in kept.split(',')]
+                A = np.asarray(out.data, dtype=float)
+                same = tuple(arr.shape) == tuple(A.shape) and close(A, arr, rtol=RTOL)[0]
+                mids = [ids[k] for k in mk] if ids is not None else None
+                if same and (ids is None or mids == (list(out.pop_ids) if out.pop_ids is not None else None)):
+                    chk.k_ok(op)
+                else:
+                    chk.k_bad(op, inp, dict(pop_ids=out.pop_ids, data=A), dict(kept=mk, data=arr), None)
+            elif mo.startswith('err ') and oerr is not None and mo[4:] == oerr:
+                chk.k_ok(op + ':refusal')
+            else:
+                chk.k_bad(op, inp, oerr or 'a spectrum', mo[:80], None)
+        nk += 1
+
+def l3_marginalize_orders(chk, ctx, rng, reps):
+    tier = ctx['tier']
+    plan = [(2, 'analytic'), (3, 'analytic'), (4, 'analytic'), (5, 'analytic'), (2, 'direct'), (3, 'direct'), (4, 'direct'), (2, 'inb'), (3, 'inb')]
+    for rep in range(reps):
+        for d, path in plan:
+            if rep > 0 and d == 5 and rep % 3:
+                continue
+            c = gen_marg_case(rng, tier, d, path)
+            check_marginalize(chk, ctx, c, marg_overs(rng, d, 40))
+            chk.stat('marg:path:%s' % c['path'])
+
+# =========================================================================== call history: sessions of calls sharing arguments
+def lookalike_grids(rng, grids, bits):
+    """grids sharing length, end points, first and last interior point with the given ones, different in between"""
+    out = []
+    for g in grids:
+        g = np.array(g, dtype=float)
+        N = len(g)
+        h = g.copy()
+        for k in range(2, N - 2):
+            lo, hi = h[k - 1], g[k + 1]
+            v = lo + float(rng.uniform(0.25, 0.75)) * (hi - lo)
+            if bits:
+                v = float(gen.round_sig(v, bits))
+            if lo < v < hi and v != g[k]:
+                h[k] = v
+        out.append(h)
+    return out
+
+def inb_session(rng, tier, d):
+    """calls of `from_phi_inbreeding` (and the `from_phi` calls it delegates to) that share sample sizes, grids, F and
+    ploidies and differ in ascertainment option / density / one look-alike argument; every one is checked on its own, so
+    any dependence on the calls made before shows"""
+    base = gen_inb_case(rng, tier, d=d)
+    base['het'] = None; base['mask_corners'] = False
+    if rng.random() < 0.6:
+        base['grids'] = [base['grids'][0].copy() for _ in range(d)]
+        base['phi'], base['phi_kind'] = gen_phi(rng, [np.clip(g, 0, 1) for g in base['grids']], base['bits'])
+    cg = [np.clip(g, 0, 1) for g in base['grids']]
+    fresh = lambda: gen_phi(rng, cg, base['bits'])[0]
+    a = int(rng.integers(min(d, 3))); b = (a + 1) % d
+    st = []
+    st.append(dict(base, het=HETKEYS[a], step='het'))
+    st.append(dict(base, het=HETKEYS[a], phi=fresh(), step='het-again'))
+    st.append(dict(base, step='plain-after-het'))
+    st.append(dict(base, het=HETKEYS[b], phi=fresh(), step='het-other-population'))
+    st.append(dict(base, phi=fresh(), step='plain-again'))
+    if d >= 2:
+        Fz = list(base['Fs']); Fz[a] = 0.0
+        st.append(dict(base, Fs=Fz, het=HETKEYS[a], step='het-on-F0-population'))
+        st.append(dict(base, Fs=Fz, step='plain-F0-population'))
+    st.append(dict(base, Fs=[0.0] * d, het=HETKEYS[a], step='all-F0-het'))
+    st.append(dict(base, Fs=[0.0] * d, step='all-F0-plain'))
+    if max(len(g) for g in base['grids']) >= 5 and base.get('overshoot') is None:
+        st.append(dict(base, grids=lookalike_grids(rng, base['grids'], base['bits']), step='lookalike-grid'))
+    pool = [0.5, 0.25, 0.125, 0.75, 2.0 ** -6, 0.9375]
+    st.append(dict(base, Fs=[[F for F in pool if F != F0][int(rng.integers(5))] for F0 in base['Fs']], step='other-F'))
+    P2 = []
+    for n, P in zip(base['ns'], base['pls']):
+        alt = [Q for Q in (2, 3, 4, 6, 8) if Q != P and n % Q == 0]
+        P2.append(alt[int(rng.integers(len(alt)))] if alt else P)
+    if P2 != list(base['pls']):
+        st.append(dict(base, pls=P2, step='other-ploidy'))
+    st.append(dict(base, step='plain-repeat', repeat_of='plain-after-het'))
+    st.append(dict(base, het=HETKEYS[a], step='het-repeat', repeat_of='het'))
+    return st
+
+def fromphi_session(rng, tier, d):
+    """calls of `from_phi` that share sample sizes and grids and run through the options (ascertained, direct, semi-analytic,
+    admixture proportions) in turn"""
+    base = gen_case(rng, tier, d=d, path=('admix' if d >= 2 else 'direct'))
+    g0 = np.clip(base['grids'][0], 0, 1)
+    base['grids'] = [g0.copy() for _ in range(d)]
+    base['overshoot'] = None; base['grid_kinds'] = [base['grid_kinds'][0]] * d
+    bits = base.get('bits') or 0
+    fresh = lambda: gen_phi(rng, base['grids'], bits)[0]
+    base.update(phi=fresh(), het=None, props=None, force=False, mask_corners=False, pop_ids=None)
+    a = int(rng.integers(min(d, 3))); b = (a + 1) % min(d, 3)
+    opt = lambda path, **kw: dict(base, path=path, **kw)
+    st = [opt('het', het=HETKEYS[a], step='het'),
+          opt('het', het=HETKEYS[a], phi=fresh(), force=True, step='het-again'),
+          opt('direct', force=True, step='direct-after-het'),
+          opt('analytic', step='analytic'),
+          opt('het', het=HETKEYS[b], phi=fresh(), step='het-other-population'),
+          opt('analytic', phi=fresh(), step='analytic-again')]
+    if d >= 2:
+        st.append(opt('admix', props=gen_props(rng, d, identity=False), step='admix'))
+        st.append(opt('admix', props=gen_props(rng, d, identity=True), force=True, step='admix-identity'))
+        st.append(opt('admix', props=gen_props(rng, d, identity=False), phi=fresh(), step='admix-other-proportions'))
+    if len(g0) >= 5:
+        lg = lookalike_grids(rng, [g0], bits)[0]
+        st.append(opt('analytic', grids=[lg.copy() for _ in range(d)], step='analytic-lookalike-grid'))
+        st.append(opt('direct', force=True, grids=[lg.copy() for _ in range(d)], step='direct-lookalike-grid'))
+    st.append(opt('direct', force=True, step='direct-repeat', repeat_of='direct-after-het'))
+    st.append(opt('analytic', step='analytic-repeat', repeat_of='analytic'))
+    st.append(opt('het', het=HETKEYS[a], step='het-repeat', repeat_of='het'))
+    return st
+
+def run_history(ctx, hist):
+    """the calls that preceded a case in its session, so a replay in a fresh process rebuilds the same module-level state"""
+    for h in hist or []:
+        if h.get('kind') == 'inbreeding':
+            call_inb(ctx['dadi'], h)
+        else:
+            call_from_phi(ctx['dadi'], h)
+
+def run_session(chk, ctx, steps, name):
+    """every step through its full check (independent reference, mass, bookkeeping, K), with the same grid *objects* handed
+    to every call; plus: identical calls return identical numbers, and no call changes the arrays it was given"""
+    hist = []; seen = {}
+    live = {}
+    for c in steps:
+        c = dict(c)
+        c['history'] = list(hist)
+        gkey = tuple(tuple(float(v) for v in g) for g in c['grids'])
+        if gkey not in live:
+            live[gkey] = [np.array(g, dtype=float) for g in c['grids']]
+        c['_live_grids'] = live[gkey]
+        chk.stat('session:%s:%s' % (name, c['step']))
+        res = check_inbreeding(chk, ctx, c) if c['kind'] == 'inbreeding' else check_from_phi(chk, ctx, c)
+        inp = small(c)
+        chk.l3(('session', name, c['d'], c['step']))
+        if any(not np.array_equal(l, np.asarray(g, dtype=float)) for l, g in zip(live[gkey], c['grids'])):
+            chk.fail('history:%s:grid-modified' % name, 'the call (%s) changed the grid array it was given — the next call of the script samples on a different grid' % c['step'],
+                     dict(inp, kind='args-modified'))
+            live[gkey] = [np.array(g, dtype=float) for g in c['grids']]
+        if res is not None and res['err'] is None:
+            data = np.array(res['fs'].data, dtype=float)
+            seen[c['step']] = data
+            ro = c.get('repeat_of')
+            if ro in seen and seen[ro].shape == data.shape and np.all(np.isfinite(data)) and np.all(np.isfinite(seen[ro])):
+                sc = float(np.max(np.abs(seen[ro]))) or 1.0
+                e = float(np.max(np.abs(seen[ro] - data)))
+                if not e <= 1e-12 * sc:
+                    chk.fail('history:%s:repeat' % name, 'the same call (%s) made again after %d other calls of the session returns different numbers (max difference %.3g, scale %.3g)'
+                             % (ro, len(hist), e, sc), inp)
+        hist.append({k: v for k, v in inp.items() if k != 'history'})
+
+def l3_sessions(chk, ctx, rng, reps):
+    tier = ctx['tier']
+    for rep in range(reps):
+        for d in (1, 2, 3):
+            run_session(chk, ctx, inb_session(rng, tier, d), 'inbreeding')
+        for d in (1, 2, 3, 4):
+            run_session(chk, ctx, fromphi_session(rng, tier, d), 'from_phi')
+
+def check_args_modified(chk, ctx, c):
+    grids = [np.array(g, dtype=float) for g in c['grids']]
+    c = dict(c, _live_grids=grids)
+    (call_inb if c.get('kind') == 'inbreeding' or c.get('Fs') is not None else call_from_phi)(ctx['dadi'], c)
+    chk.l3(('args-modified',))
+    if any(not np.array_equal(l, np.asarray(g, dtype=float)) for l, g in zip(grids, c['grids'])):
+        chk.fail('history:grid-modified', 'the call changed the grid array it was given', dict(small(c), kind='args-modified'))
+
 # =========================================================================== entry points
 def run(chk, ctx):
     tier = ctx['tier']
@@ -1141,6 +1507,11 @@ def run(chk, ctx):
                 'guard of from_phi once per cycle; non-trivial = distinct (dimension, path, option, over-shoot, density kind, size class)'
                 % (sorted(set(DIMS_W[tier])), NMAX[tier], PTS[tier], PHI_KINDS))
     chk.rule += '; FIXED_PLOIDIES = %r' % (FIXED_PLOIDIES,)
+    chk.rule += ('; marginalisation: per (dimension 2-5, path in {semi-analytic, direct (+ascertained), inbreeding}) one labelled spectrum with pairwise different populations '
+                 '(sample size, grid, density), `Spectrum.marginalize(over)` for EVERY ordered list of 1..d-1 populations (d = 5: all singles and ordered pairs + a random subset, 40 lists), '
+                 'as tuple / list / array, against sampling the density integrated over those populations; sessions: sequences of 10-14 calls of from_phi_inbreeding / from_phi sharing sample sizes, grid objects, F, '
+                 'ploidies and running through the options (ascertained on each population, plain, F = 0 in one / all populations, direct, semi-analytic, admix_props, look-alike grid, other F, other ploidy, repeats), '
+                 'each call checked on its own against the independent reference')
     chk.unproved = [
         'the F -> 0 limit of the inbreeding path (agreement with the binomial path) is a limit statement: checked numerically (difference proportional to F for F = 1e-2, 1e-3, 1e-4), not proved',
         'BetaBinomln / multinomln work in log space through gammaln / betaln: the model evaluates their exponentials exactly (ratio of rising factorials, factorials); that scipy agrees is validated by correspondence (BetaBinomConvolution, 1e-9 + cancellation allowance), the sums C05_betabinom_sum / C05_conv_sum are proved for the exact values',
@@ -1197,6 +1568,9 @@ def run(chk, ctx):
         if out.startswith('err ValueError') and r['err'] == 'ValueError': chk.k_ok('from_phi_inbreeding:refusal')
         else: chk.k_bad('from_phi_inbreeding:refusal', small(c), r['err'], out[:60], None)
     l3_inbreeding_limit(chk, ctx, rng, 6 if q else 40)
+    # ---- populations listed in any order; call history
+    l3_marginalize_orders(chk, ctx, rng, 1 if q else 6)
+    l3_sessions(chk, ctx, rng, 1 if q else 5)
     k_bbconv(chk, ctx, rng, 30 if q else 250)
     k_spec_vs_fast(chk, ctx, rng, 12 if q else 48)
     chk.notes.append('from_phi(5-D) with force_direct / het_ascertained / admix_props fails with UnboundLocalError (no 5-D direct path exists; no branch assigns `fs`): '
@@ -1207,7 +1581,15 @@ def replay(chk, ctx, data):
     kind = inp.get('kind')
     ctx['_rng'] = common.Rng(ctx['seed'], 'C05-replay')
     c = from_json(inp)
-    if kind == 'from_phi':
+    if kind in ('from_phi', 'inbreeding') and c.get('history'):
+        run_history(ctx, c['history'])        # the calls that came before it in its session
+    if kind == 'marginalize':
+        overs = [c['over']] if c.get('over') else marg_overs(ctx['_rng'], c['d'], 40)
+        check_marginalize(chk, ctx, c, overs)
+    elif kind == 'args-modified':
+        run_history(ctx, c.get('history'))
+        check_args_modified(chk, ctx, c)
+    elif kind == 'from_phi':
         check_from_phi(chk, ctx, c)
     elif kind in ('linear', 'project', 'marginal'):
         check_from_phi(chk, ctx, c)
